@@ -662,3 +662,82 @@ func (s *Sim) SnapThenAppend(p *Profile) {
 	}
 	s.stabilize(d.Int(2, 6, "rounds"))
 }
+
+// stalledNodeTakesOver: f receives entries while its append thread is
+// stalled, starts campaigning (new term) before they are written, and wins.
+// The acknowledgements of those writes then carry the old term and are
+// ignored, so f leads with entries of an earlier term still in its unstable
+// log; the acknowledgement of its first own write is delayed while the
+// followers answer.
+func (s *Sim) stalledNodeTakesOver(p *Profile, f *Node) {
+	d := s.D
+	f.SlowAppend = true
+	defer func() { f.SlowAppend, f.SlowAck = false, false }()
+	if l := s.leaderNode(); l != nil && l.ID != f.ID {
+		// the last entries of the old leader may reach f only: the others
+		// then need them from f (one by one under a small MaxSizePerMsg)
+		onlyF := d.Int(0, 1, "onlyf") == 1
+		if onlyF {
+			for _, id := range s.IDs {
+				if id != f.ID {
+					s.cut(l.ID, id)
+				}
+			}
+		}
+		for i, k := 0, d.Int(1, 3, "props"); i < k && l.Up; i++ {
+			s.Propose(l, s.drawSize(p))
+		}
+		s.stabilize(4)
+		if onlyF || d.Int(0, 1, "leadergone") == 1 {
+			s.Isolate(l)
+		}
+	}
+	if !f.Up {
+		return
+	}
+	s.TickUntilCampaign(f)
+	// the append thread catches up, but of its answers f only gets those that
+	// are not acknowledgements of the new term: the stale acknowledgement of
+	// the old-term write (ignored) and its own vote
+	f.SlowAppend, f.SlowAck = false, true
+	for try := 0; try < 3 && f.Up && !s.isLeader(f); try++ {
+		if try > 0 {
+			s.expireLeases(f)
+			s.TickUntilCampaign(f)
+		}
+		for r := 0; r < 8 && f.Up && !s.isLeader(f); r++ {
+			did := s.stabilize(1)
+			s.HandOverAllButCurrentTermAcks(f)
+			if !did {
+				break
+			}
+		}
+	}
+	if !s.isLeader(f) {
+		return
+	}
+	if st := f.RN.VerifState(); st.UnstableLen > 1 {
+		s.Stats.inc("macro.leader_with_old_unstable_entries")
+	}
+	if d.Int(0, 1, "prop") == 1 {
+		s.Propose(f, s.drawSize(p))
+	}
+	s.stabilize(d.Int(2, 5, "rounds"))
+	f.SlowAck = false
+	s.stabilize(3)
+	if d.Int(0, 1, "heal") == 1 {
+		s.Heal()
+	}
+}
+
+// HandOverAllButCurrentTermAcks delivers n's queued append-thread responses
+// in order, up to the first acknowledgement issued in n's current term.
+func (s *Sim) HandOverAllButCurrentTermAcks(n *Node) {
+	for n.Up && len(n.SelfQ[0]) > 0 {
+		m := n.SelfQ[0][0]
+		if m.GetType() == pb.MsgStorageAppendResp && m.GetTerm() == n.RN.BasicStatus().GetTerm() {
+			return
+		}
+		s.selfStep(n, 0)
+	}
+}
